@@ -69,9 +69,22 @@ fn c01(tier: &str) -> PropDef {
             }),
         },
     ];
+    let mut families = families;
+    families.push(Family {
+        name: "varint-boundary",
+        count: if quick { 60 } else { 3_000 },
+        make: Box::new(|seed, idx| {
+            let mut r = Rng::stream(seed, "C01", idx, "varint");
+            let mut g = G::new(idx);
+            let steps = gen::varint_boundary_history(&mut r, &mut g);
+            let mut cfg = Cfg::basic(seed ^ idx);
+            cfg.scan = ScanMode::Sampled;
+            world_case(cfg, steps, Fault::None)
+        }),
+    });
     PropDef {
         level: "exploration",
-        rule: "cases = operation traces on one writer core over SimDisk: (sweep) every trace of length <= L over a 9-letter alphabet {append 0B, append 3B, batch [], batch of 3, clear first, clear last, clear across end, reopen, read-all}; (seeded) PRNG traces of 5-60 steps with swarm-style mixes; (large) batches of 8k-70k blocks crossing bitfield page edges with clears and reopens. After every mutating step the whole core is scanned (info, has, get for all indices < length+2; sampled in the large family) against the list model. distinct = distinct trace hash; non-trivial = trace has at least one mutating step and at least one close-and-reopen.",
+        rule: "cases = operation traces on one writer core over SimDisk: (sweep) every trace of length <= L over a 9-letter alphabet {append 0B, append 3B, batch [], batch of 3, clear first, clear last, clear across end, reopen, read-all}; (seeded) PRNG traces of 5-60 steps with swarm-style mixes; (large) batches of 8k-70k blocks crossing bitfield page edges with clears and reopens; (varint-boundary) histories that take the length across 252/253 or 65535/65536 with a non-flushing operation followed by further unflushed operations and a reopen. After every mutating step the whole core is scanned (info, has, get for all indices < length+2; sampled in the large family) against the list model. distinct = distinct trace hash; non-trivial = trace has at least one mutating step and at least one close-and-reopen.",
         assumptions: vec![
             "SimDisk implements the RandomAccess contract exactly as random-access-memory/-disk do (write extends with zeros, read beyond length = OutOfBounds, del to EOF = truncate)",
             "Ed25519/BLAKE2b primitives are trusted",
@@ -179,6 +192,33 @@ fn fault_families(prop: &'static str, kind: FaultKind, counts: [u64; 6], sweep_l
             let mut g = G::new(idx);
             let steps = mro_history(&mut r, &mut g);
             world_case(Cfg::basic(seed ^ idx), steps, fault_for(kind, 0, r.next(), 0))
+        }),
+    });
+    v.push(Family {
+        name: "varint-boundary",
+        count: (n_mro / 100).max(4),
+        make: Box::new(move |seed, idx| {
+            let mut r = Rng::stream(seed, prop, idx, "varint");
+            let mut g = G::new(idx);
+            let mut steps = gen::varint_boundary_history(&mut r, &mut g);
+            // keep to the 253 boundary here (the journal of a 65k fill is enumerated op by op)
+            if let Some(Step::Fill { count, .. }) = steps.first() {
+                if *count > 1000 {
+                    let mut r2 = Rng::stream(seed, prop, idx ^ 0x55, "varint");
+                    let mut g2 = G::new(idx);
+                    loop {
+                        let cand = gen::varint_boundary_history(&mut r2, &mut g2);
+                        if matches!(cand.first(), Some(Step::Fill { count, .. }) if *count < 1000) {
+                            steps = cand;
+                            break;
+                        }
+                        g2 = G::new(idx);
+                    }
+                }
+            }
+            let mut cfg = Cfg::basic(seed ^ idx);
+            cfg.scan = ScanMode::Sampled;
+            world_case(cfg, steps, fault_for(kind, 0, r.next(), 96))
         }),
     });
     if n_replica_mro > 0 {
@@ -443,7 +483,7 @@ fn c08(tier: &str) -> PropDef {
         },
         Family {
             name: "far-apart-replica",
-            count: if quick { 10 } else { 300 },
+            count: if quick { 12 } else { 300 },
             make: Box::new(|seed, idx| {
                 let mut r = Rng::stream(seed, "C08", idx, "far");
                 let count = *r.pick(&[33000u32, 40000, 66000, 70000]);
@@ -451,6 +491,19 @@ fn c08(tier: &str) -> PropDef {
                 let mut targets: Vec<u64> = vec![5, 8191, 8192, 32767, 32768, 40000, 65536, count as u64 - 1, 0, 1];
                 targets.retain(|t| *t < count as u64);
                 r.shuffle(&mut targets);
+                if idx % 2 == 1 {
+                    // a replica that never holds anything in its first bitfield page(s): only
+                    // blocks of the last page, then a clear that starts in a page it never allocated
+                    let edge = if count as u64 > 65536 + 400 && r.chance(1, 2) { 65536u64 } else { 32768 };
+                    let a = edge + r.range(1, 60);
+                    let b = edge + r.range(61, (count as u64 - edge - 1).min(300));
+                    steps.push(Step::Sync { to: 1, req: crate::world::Req { block: Some(a), upgrade: Some(u64::MAX >> 8), ..Default::default() } });
+                    steps.push(Step::Sync { to: 1, req: crate::world::Req { block: Some(b), ..Default::default() } });
+                    steps.push(Step::Clear { n: 1, start: edge - r.range(1, 300), end: a + r.range(1, 30) });
+                    steps.push(Step::Info { n: 1 });
+                    steps.push(Step::Reopen { n: 1 });
+                    targets.truncate(2);
+                }
                 let mut first = true;
                 for t in targets {
                     steps.push(Step::Sync { to: 1, req: crate::world::Req { block: Some(t), upgrade: if first { Some(u64::MAX >> 8) } else { None }, ..Default::default() } });
@@ -459,10 +512,22 @@ fn c08(tier: &str) -> PropDef {
                         steps.push(Step::Reopen { n: 1 });
                     }
                 }
+                // a clear on the replica that starts in a bitfield page it never allocated and
+                // continues into an allocated one (and other page-straddling clears)
+                if r.chance(2, 3) {
+                    let edge = *r.pick(&[32768u64, 65536]);
+                    if edge < count as u64 {
+                        let s = edge - r.range(1, 200);
+                        steps.push(Step::Sync { to: 1, req: crate::world::Req { block: Some(edge + r.range(1, 60)), ..Default::default() } });
+                        steps.push(Step::Sync { to: 1, req: crate::world::Req { block: Some(edge + r.range(61, 300)), ..Default::default() } });
+                        steps.push(Step::Clear { n: 1, start: s, end: edge + r.range(40, 120) });
+                    }
+                }
                 steps.push(Step::Reopen { n: 1 });
                 let mut cfg = Cfg::basic(seed ^ idx);
                 cfg.replicas = 1;
                 cfg.scan = ScanMode::Sampled;
+                cfg.replica_clear = true;
                 world_case(cfg, steps, Fault::None)
             }),
         },
@@ -517,9 +582,16 @@ fn c08(tier: &str) -> PropDef {
                 let mut r = Rng::stream(seed, "C08", idx, "replica");
                 let mut g = G::new(idx);
                 let n = r.range(4, 40) as usize;
-                let steps = gen::replica_history(&mut r, &mut g, n, 2);
+                let mut steps = gen::replica_history(&mut r, &mut g, n, 2);
+                // clears on (possibly sparse) replicas too
+                for _ in 0..r.below(4) {
+                    let pos = r.below(steps.len() as u64 + 1) as usize;
+                    let (s, e) = g.clear_range(&mut r);
+                    steps.insert(pos, Step::Clear { n: 1 + r.below(2) as u8, start: s, end: e.min(g.len + 2) });
+                }
                 let mut cfg = Cfg::basic(seed ^ idx);
                 cfg.replicas = 2;
+                cfg.replica_clear = true;
                 world_case(cfg, steps, Fault::None)
             }),
         },
@@ -566,8 +638,12 @@ fn c12(tier: &str) -> PropDef {
             // after make_read_only: appends must be refused, data intact after reopen
             let blk = g.blk(&mut r);
             steps.push(Step::Append { n: 0, blk });
+            if r.chance(1, 2) {
+                steps.push(Step::Batch { n: 0, blks: vec![] });
+            }
             steps.push(Step::Reopen { n: 0 });
             steps.push(Step::Append { n: 0, blk });
+            steps.push(Step::Batch { n: 0, blks: if r.chance(1, 2) { vec![] } else { vec![blk, blk] } });
             (r, steps)
         }
     };
@@ -598,6 +674,7 @@ fn c12(tier: &str) -> PropDef {
                 steps.push(Step::BadOpen { n: 1 });
                 steps.push(Step::Reopen { n: 1 });
                 steps.push(Step::Batch { n: 1, blks: vec![blk, blk] });
+                steps.push(Step::Batch { n: 1, blks: vec![] });
                 let mut cfg = Cfg::basic(seed ^ idx);
                 cfg.replicas = 1;
                 world_case(cfg, steps, Fault::None)
@@ -838,6 +915,19 @@ fn c06(tier: &str) -> PropDef {
             }),
         },
         Family {
+            name: "reader-varint-boundary",
+            count: if quick { 40 } else { 2_000 },
+            make: Box::new(|seed, idx| {
+                let mut r = Rng::stream(seed, "C06", idx, "varint");
+                let mut g = G::new(idx);
+                let steps = gen::varint_boundary_history(&mut r, &mut g);
+                let mut cfg = Cfg::basic(seed ^ idx);
+                cfg.judge_layout = true;
+                cfg.scan = ScanMode::None;
+                world_case(cfg, steps, Fault::None)
+            }),
+        },
+        Family {
             name: "reader-large",
             count: if quick { 4 } else { 80 },
             make: Box::new(|seed, idx| {
@@ -1011,6 +1101,25 @@ fn c14(tier: &str) -> PropDef {
             name: "sim-memory-cache",
             count: if quick { 500 } else { 60_000 },
             make: Box::new(move |seed, idx| mk(seed, idx, false)),
+        },
+        Family {
+            name: "tampered-replication-cache",
+            count: if quick { 300 } else { 15_000 },
+            make: Box::new(move |seed, idx| {
+                // refused / accepted altered proofs must be refused / accepted the same way with
+                // and without a node cache
+                let mut r = Rng::stream(seed, "C14", idx, "tamper");
+                let mut g = G::new(idx);
+                let n = r.range(4, 20) as usize;
+                let steps = gen::tamper_history(&mut r, &mut g, n, 1, false);
+                let arms = vec![
+                    Arm { backend: Backend::Sim, cache: CacheMode::Off, nosparse: false },
+                    Arm { backend: Backend::Sim, cache: CacheMode::Default, nosparse: false },
+                    Arm { backend: Backend::Sim, cache: CacheMode::Tiny, nosparse: false },
+                ];
+                let spec = ConfigSpec { key_seed: seed ^ idx, replicas: 1, steps, arms };
+                Case { prop: String::new(), family: String::new(), run: 0, body: Body::Config(spec) }
+            }),
         },
         Family {
             name: "sim-memory-disk",
